@@ -2,7 +2,6 @@
 from props.base import *
 from props.blk import *
 COQ_TARGETS = ['props/Properties_C09.vo']
-CORR_IS_SPEC = True
 RULE = ('pairs (h . Reset . c  on interface 0,  c alone on a never-used interface 1 with the same configuration) in one process: histories h ending with a cached icon, pending observations, '
         'both generations set, a foreign or bridged mapper, a half-drained observation list; continuations c with Discovers of both services and generations incl. 0, Emit, Probe, Query, '
         'QueryLargeTlv (cached properties), noise; oracle: per-frame port calls on both interfaces identical byte for byte. distinct = distinct (last opcodes of h, first opcodes of c) classes')
@@ -40,8 +39,10 @@ def scenarios(rng, tier):
             s.lines.append(' '.join([t[0], '1'] + t[2:]))
     return [(s.text(), {})]
 def project(blk, name, meta):
+    # kinds and sizes of the frames sent per received frame (the byte-for-byte comparison the property asks for is made
+    # between the two interfaces of the implementation itself, see oracle)
     if blk.fault: return ('fault',)
-    if blk.op.startswith('frame'): return tuple(blk.acts)
+    if blk.op.startswith('frame'): return tuple((o[17] if len(o) >= 18 else -1, len(o)) for _, _, o in blk.sends())
     return ()
 def strip_ctx(acts):
     r = []
